@@ -38,6 +38,13 @@ def gen_expr(rng, signals):
             for z in zs:
                 v *= z
         op = {'add': '+', 'sub': '-', 'mul': '*'}[kind]
+        if n >= 2 and rng.random() < 0.4:
+            # some operands come from variables: the same arithmetic, not foldable before evaluation
+            k = rng.sample(range(n), rng.randrange(1, n))
+            names = {i: 'v%d' % i for i in k}
+            binds = ' '.join(f'[{names[i]} {zs[i]}]' for i in k)
+            args = ' '.join(names.get(i, lit(zs[i])) for i in range(n))
+            return f'(let ({binds}) ({op} {args}))', v, True
         return f'({op} {" ".join(map(lit, zs))})', v, True
     if kind == 'mod':
         a, b = signed(rng), signed(rng) or 7
